@@ -85,6 +85,11 @@ class WrapperSpec(Spec):
             if v.tag == 'wrapped_storage':
                 cc.event('wrapped-call', name, tuple(args))
                 if name == 'tpc_finish':
+                    # the wrapped storage may refuse (another transaction's handle, a failing callback):
+                    # nothing is durable then, and the tpc_abort that follows must still find the dirty list
+                    if cc.choose([True, True], 'wrapped-finish') == 1:
+                        cc.event('wrapped-finish-raised')
+                        raise RaiseSig(VExc('ZODB.POSException:StorageTransactionError'))
                     return cc.fresh_bytes(8, 'tid')
                 if name == 'tpc_transaction':
                     return cc.ghost['w']['cur']
@@ -148,13 +153,27 @@ class WrapperTpcFinish(WrapperSpec):
 
     def outcomes(self, c, E):
         g = c.ghost['w']
+        d0 = c.obj(g['dirty']).f['set']
+        f0 = c.obj(g['blobfs']).f['files']
 
         def post(c, E, r):
             d = c.obj(g['self']).f['dirty_oids']
             empty = isinstance(d, VRef) and c.obj(d).kind == 'list' and not c.obj(d).meta.get('items')
             return [('returns-the-tid-of-the-wrapped-storage', isinstance(r, VBytes)),
                     ('dirty-list-forgotten-files-kept', empty)]
-        return [Outcome('ok', post=post, result=lambda c, E: c.fresh_bytes(8, 'tid'))]
+
+        def post_refused(c, E, r):
+            d = c.obj(g['self']).f['dirty_oids']
+            same = isinstance(d, VRef) and d.id == g['dirty'].id
+            return [('wrapped-storage-was-asked', any(e[0] == 'wrapped-finish-raised' for e in c.events)),
+                    ('refused-finish.dirty-list-kept-for-the-abort-that-follows',
+                     z3.BoolVal(False) if not same else All(
+                         ['boid', 'btid'], lambda x, y: has(c.obj(d).f['set'], x, y) == has(d0, x, y))),
+                    ('refused-finish.blob-files-untouched', All(
+                        ['boid', 'btid'], lambda x, y: has(c.obj(g['blobfs']).f['files'], x, y) == has(f0, x, y)))]
+        return [Outcome('ok', post=post, result=lambda c, E: c.fresh_bytes(8, 'tid')),
+                Outcome('wrapped-finish-refused', 'raise', 'ZODB.POSException:StorageTransactionError',
+                        post=post_refused)]
 
 
 SPECS = [BlobStoreBlob, WrapperTpcAbort, WrapperTpcFinish]
